@@ -51,6 +51,10 @@ pub fn verif_root() -> PathBuf {
     }
 }
 
+/// per-run cap on proptest shrink iterations (properties whose cases are
+/// expensive to re-run lower it before calling par_proptest)
+pub static MAX_SHRINK_ITERS: std::sync::atomic::AtomicU32 = std::sync::atomic::AtomicU32::new(4000);
+
 pub fn hash_of<T: Hash + ?Sized>(t: &T) -> u64 {
     let mut h = Fnv(0xcbf29ce484222325);
     t.hash(&mut h);
@@ -320,7 +324,7 @@ where
     let config = Config {
         cases,
         failure_persistence: None,
-        max_shrink_iters: 4000,
+        max_shrink_iters: MAX_SHRINK_ITERS.load(Ordering::Relaxed),
         max_shrink_time: 0,
         max_local_rejects: 1 << 20,
         max_global_rejects: 1 << 20,
